@@ -273,7 +273,7 @@ Definition ms_rx_nonread (st : ms_mstate) (dest : N) (t : ms_task) (k : ms_ttype
   match r with
   | MsRxBad => fail MsETransport false
   | MsRxResp f =>
-      let st := ms_touch st dest in
+      let st := ms_touch st src in
       let fail e restart :=
         let '(st1, o) := ms_update_assoc st dest (ms_task_error now t e restart) in
         let '(st2, o2) := ms_task_done st1 in
@@ -287,17 +287,22 @@ Definition ms_rx_nonread (st : ms_mstate) (dest : N) (t : ms_task) (k : ms_ttype
         match ms_find_assoc dest (ms_m_assocs st) with
         | None => (st, [])
         | Some a =>
+            (* the accepted response is confirmed when it asks for it (repair 86bdefd) *)
+            let confirm := if ms_r_con f then [MsOTx now (ms_confirm_sol_bytes seq)] else [] in
             let a1 := ms_process_iin f a in
             let '(a2, o, h) := ms_nonread_handle now (ms_m_systime st) t f a1 in
             let st1 := ms_set_assocs st (ms_put_assoc a2 (ms_m_assocs st)) in
             match h with
             | MsHComplete =>
-                let '(st2, o2) := ms_task_done st1 in (st2, o ++ [MsOOk now dest k fc0 seq] ++ o2)
+                let '(st2, o2) := ms_task_done st1 in
+                (st2, confirm ++ o ++ [MsOOk now dest k fc0 seq] ++ o2)
             | MsHError e =>
-                let '(st2, o2) := ms_task_done st1 in (st2, o ++ [MsOFail now dest k e] ++ o2)
+                let '(st2, o2) := ms_task_done st1 in
+                (st2, confirm ++ o ++ [MsOFail now dest k e] ++ o2)
             | MsHContinue t' =>
                 let '(st2, o2, s) := ms_send_request st1 dest t' in
-                (ms_set_phase st2 (MsPRun (MsRNonRead dest t' k fc0 s (now + ms_rto_of st2 dest))), o ++ o2)
+                (ms_set_phase st2 (MsPRun (MsRNonRead dest t' k fc0 s (now + ms_rto_of st2 dest))),
+                 confirm ++ o ++ o2)
             end
         end
   end.
@@ -432,7 +437,6 @@ Fixpoint ms_advance (fuel : nat) (target : ms_time) (st : ms_mstate) : ms_mstate
 Definition ms_after_message (st : ms_mstate) : ms_mstate * list ms_obs :=
   match ms_m_phase st with
   | MsPIdle _ => ms_task_done st
-  | MsPRun (MsRLink dest p _) => (ms_set_phase st (MsPRun (MsRLink dest p (ms_m_now st + ms_rto_of st dest))), [])
   | _ => (st, [])
   end.
 
